@@ -1,5 +1,6 @@
 import Driver.Util
 import RxnModel.Model.JobFsm
+import RxnModel.Model.RunnerProc
 /-! Driver section for C15: replays the harness' action lines on `JobFsm.step` (the definition the theorems of
 `Props/C15.lean` are about) and renders the observations. Header: `M C15 <workerCount> <deadline> <initial ckpt>`. -/
 namespace Driver.C15
@@ -63,7 +64,10 @@ def render : Out → String
   | .tickRead ops => s!"read o={ids ops}"
   | .ckptCreated n => s!"created {n}"
   | .noTick => "notick"
-  | .published n cur => s!"published {n} cur={optNat cur}"
+  | .published n cur l => s!"published {n} cur={optNat cur}" ++ (if l.isEmpty then "" else s!" retain={n}@{ids l}")
+  | .spNotRunning => "notrunning"
+  | .spBusy => "busy"
+  | .spJoined id => s!"joined {id}"
   | .nothing => "nothing"
   | .evQueued => "queued"
   | .processed b e => withSpec s!"processed {tagsOf b}" s!"processed {tagsOf (curOf b e)}"
@@ -95,6 +99,8 @@ def parse : List String → Option Act
   | ["bar", i, s, id] => some (.bar (natOr i) (natOr s) (natOr id))
   | ["ev", i, s, tag] => some (.ev (natOr i) (natOr s) (natOr tag))
   | ["flush", i] => some (.flush (natOr i))
+  | ["savepoint"] => some .savepoint
+  | ["spa"] => some .spA
   | ["ticka"] => some .tickA
   | ["tickb"] => some .tickB
   | ["tickc"] => some .tickC
@@ -107,6 +113,7 @@ structure DSt where
   started : List Nat := []
   gone : List Nat := []
   hold : Bool := false   -- `holdpub`: snapshot files are not written until `relpub`
+  rp : RunnerProc.St := {}   -- the standalone source runner process of `r.*` ops
 
 def DSt.live (d : DSt) (k : Nat) : Bool := d.started.contains k && !d.gone.contains k
 
@@ -179,19 +186,61 @@ def two (d : DSt) (a b : Act) : DSt × String :=
   let (s2, o2) := step s1 b
   ({ d with s := s2 }, render o1 ++ " ; " ++ render o2)
 
+def retainText : Out → String
+  | .published n _ l => if l.isEmpty then "" else s!" retain={n}@{ids l}"
+  | _ => ""
+
+/-- publish everything being written, oldest first; returns the retained-ids notifications that go out -/
+def publishAll (s : St) : St × String :=
+  s.store.writing.foldl (fun (acc : St × String) n =>
+    let (s', o) := step acc.1 (.publish n)
+    (s', acc.2 ++ retainText o)) (s, "")
+
 /-- unless the harness holds the storage, the file of a completed snapshot is written at once -/
-def settlePub (d : DSt) : DSt :=
-  if d.hold then d else { d with s := d.s.store.writing.foldl (fun s n => (step s (.publish n)).1) d.s }
+def settlePub (d : DSt) : DSt × String :=
+  if d.hold then (d, "") else
+    let (s', t) := publishAll d.s
+    ({ d with s := s' }, t)
+
+def renderR : RunnerProc.Out → String
+  | .deployed none => "deployed"
+  | .deployed (some (i, true)) => s!"deployed acked {i}"
+  | .deployed (some (i, false)) => s!"deployed refused {i}"
+  | .held => "held"
+  | .nothingToHold => "nohold"
+  | .queued => "queued"
+  | .full => "full"
+  | .acked i => s!"acked {i}"
+  | .refused i => s!"refused {i}"
+  | .notDeployed => "notdeployed"
+  | .ok => "ok"
+
+/-- the real source runner, one process (`r.*` ops). Finding D48 is tagged only in its situation: a loop takes a request
+that was queued before the current deployment and is refused (the property: the redeploy forgets it), and, afterwards,
+a request for the job's pending checkpoint stays queued because that loop is gone (the property: it is acknowledged). -/
+def stepRunner (d : DSt) (a : RunnerProc.Act) : DSt × String :=
+  let (r', o) := RunnerProc.step d.rp a
+  let x := renderR o
+  let y := match a, o with
+    | .deploy, .deployed (some (_, false)) => if d.rp.queuedAt < d.rp.deploys + 1 then "deployed" else x
+    | .start id, .queued =>
+        if d.rp.diedStale && d.rp.free == 0 && d.rp.pending == some id then s!"acked {id}" else x
+    | _, _ => x
+  ({ d with rp := r' }, withSpecId x y "D48")
 
 def stepLine0 (d : DSt) (ws : List String) : DSt × String :=
   match ws with
   | ["st"] => (d, showState d.s)
+  | ["r.deploy"] => stepRunner d .deploy
+  | ["r.hold"] => stepRunner d .hold
+  | ["r.start", id] => stepRunner d (.start (natOr id))
+  | ["r.pend", id] => stepRunner d (.pend (natOr id))
   | ["holdpub"] => ({ d with hold := true }, "ok")
   | ["relpub"] =>
       let ns := d.s.store.writing
-      let s' := ns.foldl (fun s n => (step s (.publish n)).1) d.s
+      let (s', t) := publishAll d.s
       ({ d with hold := false, s := s' },
-       if ns.isEmpty then "nothing" else s!"published {ids ns} cur={optNat s'.store.current}")
+       if ns.isEmpty then "nothing" else s!"published {ids ns} cur={optNat s'.store.current}" ++ t)
   | ["raceprobe", _] => (d, "ok")  -- concurrency probe for the -race build of the harness; ends its case
   | ["hbxn", _, _] => (d, "ok")  -- the same statement at nanosecond resolution around the deadline
   | ["hbx", _, _] => (d, "ok")   -- spec: C15.heartbeat_expiry_exact, evaluated on the real LivenessTracker
@@ -225,7 +274,15 @@ def stepLine0 (d : DSt) (ws : List String) : DSt × String :=
 
 def stepLine (d : DSt) (ws : List String) : DSt × String :=
   let (d', o) := stepLine0 d ws
-  (settlePub d', o)
+  let (d'', t) := settlePub d'
+  -- the notification text goes on the code side and on the spec side of the line
+  (d'', if t.isEmpty then o else
+    match o.splitOn " #spec " with
+    | [x, rest] =>
+      (match rest.splitOn " #kf " with
+       | [y, k] => s!"{x}{t} #spec {y}{t} #kf {k}"
+       | _ => o ++ t)
+    | _ => o ++ t)
 
 def handle (lines : Array String) (i : Nat) (out : Array String) : Nat × Array String :=
   let st₀ := match words (lines.getD (i - 1) "") with
